@@ -201,8 +201,8 @@ def _lemma_slice_keeps_world(ny, nx, A, sx, kx, mx, sy, ky, my, i, j):
 
 
 def _valid_progression(n, s, k, m):
-    """m >= 2 indices s, s+k, .., s+(m-1)k all inside [0, n), k != 0"""
-    return And(k != 0, m >= 2, s >= 0, s < n, s + (m - 1) * k >= 0, s + (m - 1) * k < n)
+    """m >= 1 indices s, s+k, .., s+(m-1)k all inside [0, n), k != 0"""
+    return And(k != 0, m >= 1, s >= 0, s < n, s + (m - 1) * k >= 0, s + (m - 1) * k < n)
 
 
 lemma(
@@ -215,7 +215,7 @@ lemma(
     ],
     body=_lemma_slice_keeps_world,
     unstub=[f"{XR}:xr_coords", f"{MATH}:affine_from_axis", f"{MATH}:data_resolution_and_offset", f"{MATH}:is_affine_st"],
-    note="positional slicing = the same arithmetic sub-progression of every coordinate variable, attrs/encoding kept (assumed of xarray, bounded-checked); at least two remaining pixels per axis (single remaining pixels use the stored full-grid GeoTransform and are exercised by the bounded check only)",
+    note="positional slicing = the same arithmetic sub-progression of every coordinate variable, attrs/encoding kept (assumed of xarray, bounded-checked); any number >= 1 of remaining pixels per axis (a single remaining pixel takes its size from the stored full-grid GeoTransform, which slicing keeps)",
     max_paths=600,
 )
 
